@@ -1716,13 +1716,13 @@ def _c18_harnesses(prop, tier):
                     for i in range(n):
                         def cb(i, s):
                             inj = "panic!(\"INJECTED\")" if (i, s) == (bi, si) else "{}"
-                            return "{ ev(code(K_CALL, %d, %d, 0)); %s; x }" % (i, s, inj)
+                            return "{ ev_e(ep, code(K_CALL, %d, %d, 0)); %s; x }" % (i, s, inj)
                         if is_async:
-                            t = "async move { let x = %du8; %s; %s }" % (i, "ev(code(K_CALL, %d, 0, 0)); %s" % (i, "panic!(\"INJECTED\")" if (i, 0) == (bi, si) else "{}"),
+                            t = "async move { let x = %du8; %s; %s }" % (i, "ev_e(ep, code(K_CALL, %d, 0, 0)); %s" % (i, "panic!(\"INJECTED\")" if (i, 0) == (bi, si) else "{}"),
                                                                       "Ok::<u8, u8>(x)" if is_try else "x")
                             for s in range(1, ds[i]):
                                 if is_try:
-                                    t += " ~=> move |x: u8| async move { %s; Ok::<u8, u8>(x) }" % ("ev(code(K_CALL, %d, %d, 0)); %s" % (i, s, "panic!(\"INJECTED\")" if (i, s) == (bi, si) else "{}"))
+                                    t += " ~=> move |x: u8| async move { %s; Ok::<u8, u8>(x) }" % ("ev_e(ep, code(K_CALL, %d, %d, 0)); %s" % (i, s, "panic!(\"INJECTED\")" if (i, s) == (bi, si) else "{}"))
                                 else:
                                     t += " ~|> move |x: u8| %s" % cb(i, s)
                         else:
@@ -1732,7 +1732,8 @@ def _c18_harnesses(prop, tier):
                         brs.append(t)
                     prog = "%s! { %s }" % (mac, ", ".join(brs))
                     run = ("block_on_tokio(async move { let _ = %s.await; })" % prog) if is_async else ("{ let _ = %s; }" % prog)
-                    b = "    let res = with_watchdog(move || std::panic::catch_unwind(std::panic::AssertUnwindSafe(|| %s)).is_err());\n" % run
+                    b = "    let ep = epoch_begin();\n"
+                    b += "    let res = with_watchdog(move || std::panic::catch_unwind(std::panic::AssertUnwindSafe(|| %s)).is_err());\n" % run
                     b += "    assert!(res.is_some(), \"C18: the caller was left blocked after a panic in a branch\");\n"
                     b += "    assert!(res == Some(true), \"C18: the panic of a user expression did not reach the caller\");\n"
                     b += "    let nev = tlen().min(TMAX);\n"
@@ -1778,15 +1779,15 @@ def _c18_capture_handler_harnesses(prop, tier):
                 brs = []
                 for i in range(n):
                     if is_async:
-                        t = "async move { ev(code(K_CALL, %d, 0, 0)); %s }" % (i, "Ok::<u8, u8>(%du8)" % i if is_try else "%du8" % i)
+                        t = "async move { ev_e(ep, code(K_CALL, %d, 0, 0)); %s }" % (i, "Ok::<u8, u8>(%du8)" % i if is_try else "%du8" % i)
                     else:
-                        t = ("Ok::<u8, u8>(%du8)" % i if is_try else "Some(%du8)" % i) + " |> |x: u8| { ev(code(K_CALL, %d, 0, 0)); x }" % i
+                        t = ("Ok::<u8, u8>(%du8)" % i if is_try else "Some(%du8)" % i) + " |> |x: u8| { ev_e(ep, code(K_CALL, %d, 0, 0)); x }" % i
                     for s in range(1, ds[i]):
                         inj = "panic!(\"INJECTED\");" if (site, i, s) == ("cap", bi, si) else ""
                         if is_async and is_try:
-                            t += " ~=> { %s move |x: u8| async move { ev(code(K_CALL, %d, %d, 0)); Ok::<u8, u8>(x) } }" % (inj, i, s)
+                            t += " ~=> { %s move |x: u8| async move { ev_e(ep, code(K_CALL, %d, %d, 0)); Ok::<u8, u8>(x) } }" % (inj, i, s)
                         else:
-                            t += " ~|> { %s move |x: u8| { ev(code(K_CALL, %d, %d, 0)); x } }" % (inj, i, s)
+                            t += " ~|> { %s move |x: u8| { ev_e(ep, code(K_CALL, %d, %d, 0)); x } }" % (inj, i, s)
                     brs.append(t)
                 h = ""
                 if site == "handler":
@@ -1799,7 +1800,8 @@ def _c18_capture_handler_harnesses(prop, tier):
                         h = ", then => |%s| -> u8 { panic!(\"INJECTED\") }" % args
                 prog = "%s! { %s%s }" % (mac, ", ".join(brs), h)
                 run = ("block_on_tokio(async move { let _ = %s.await; })" % prog) if is_async else ("{ let _ = %s; }" % prog)
-                b = "    let res = with_watchdog(move || std::panic::catch_unwind(std::panic::AssertUnwindSafe(|| %s)).is_err());\n" % run
+                b = "    let ep = epoch_begin();\n"
+                b += "    let res = with_watchdog(move || std::panic::catch_unwind(std::panic::AssertUnwindSafe(|| %s)).is_err());\n" % run
                 b += "    assert!(res.is_some(), \"C18: the caller was left blocked after a panic\");\n"
                 b += "    assert!(res == Some(true), \"C18: the panic of a user expression did not reach the caller\");\n"
                 if site == "cap":
